@@ -145,3 +145,23 @@ func contract_encoder_marshalTimestamp(e encoder, m protoreflect.Message) (err e
 	ensures(iff(err == nil, specTimestampWritable(specFieldInt(m, 1), specFieldInt(m, 2))))
 	return
 }
+
+// ---------------------------------------------------------------- recursion budget of the JSON decoder (C26)
+
+// Every descent from a message into its content (well-known-type decoder, list, map, singular
+// field - the only ways to reach a nested unmarshalMessage) happens with the recursion budget
+// already decremented and not exhausted.
+//
+// @ props C26
+// @ mode int
+// @ nopanic
+// @ callsite unmarshal: d.opts.RecursionLimit == old(d.opts.RecursionLimit)-1 && d.opts.RecursionLimit >= 0
+// @ callsite d.unmarshalList: d.opts.RecursionLimit == old(d.opts.RecursionLimit)-1 && d.opts.RecursionLimit >= 0
+// @ callsite d.unmarshalMap: d.opts.RecursionLimit == old(d.opts.RecursionLimit)-1 && d.opts.RecursionLimit >= 0
+// @ callsite d.unmarshalSingular: d.opts.RecursionLimit == old(d.opts.RecursionLimit)-1 && d.opts.RecursionLimit >= 0
+func contract_decoder_unmarshalMessage(d decoder, m protoreflect.Message, skipTypeURL bool) (err error) {
+	domain(d.opts.RecursionLimit >= 0) // a negative budget fails at once; MinInt would wrap
+	domain(d.Decoder != nil)
+	modifiesAll()
+	return
+}
